@@ -1599,7 +1599,9 @@ fn region_at(pos: u64, linux: bool) -> (u64, u64) {
         _ => (TOP, if linux { u64::MAX } else { u64::MAX - 1 }),
     }
 }
-const INFO_PERMS: [u32; 7] = [0x01, 0x02, 0x08, 0x10, 0x04, 0x20, 0x104];
+// (the read-write entry also carries PAGE_TARGETS_NO_UPDATE = 0x4000_0000, a bit outside the protection table: the
+// access rights of a region are those of its known bits)
+const INFO_PERMS: [u32; 7] = [0x01, 0x02, 0x08, 0x10, 0x4000_0004, 0x20, 0x104];
 const LINUX_PERMS: [&str; 7] = ["", "r", "w", "x", "rw", "rx", "rwx"];
 
 pub fn bitflip_addresses(tier: Tier) -> Vec<u64> {
